@@ -1,14 +1,15 @@
 """C03 -- a stream has one input; foreign arrivals and departures never disturb it (spec/Lifecycle.tla)."""
-from props.lifecycle_common import run_lifecycle
+from props.lifecycle_common import run_lifecycle, DIRECTED
 
 
 def run(ctx):
     if ctx.quick:
-        run_lifecycle(ctx, bfs=[("L1", 2, 0), ("P3", 2, 3), ("L3", 2, 0)], emit=[("L2", 1, 0), ("P4", 1, 2), ("H0", 1, 0)],
+        run_lifecycle(ctx, bfs=[("L1", 2, 0), ("P3", 2, 3), ("L3", 2, 0)], emit=[("L2", 1, 0), ("P4", 1, 2), ("H0", 1, 0), ("D0", 1, 1)],
                       sim=[("L1", 4, 0, 300, 18), ("P3", 3, 4, 80, 14), ("L3", 3, 0, 150, 18), ("L4", 3, 0, 120, 18), ("P5", 3, 3, 80, 16), ("S3", 3, 0, 120, 18),
-                           ("H1", 3, 0, 80, 18), ("R3", 3, 4, 40, 14)])
+                           ("H1", 3, 0, 80, 18), ("R3", 3, 4, 40, 14), ("D1", 3, 3, 40, 16)], directed=DIRECTED)
     else:
-        run_lifecycle(ctx, bfs=[("L1", 3, 0), ("P3", 3, 4), ("L3", 3, 0), ("H1", 3, 0)], emit=[("L2", 2, 0), ("P4", 2, 3), ("P0", 2, 3), ("H0", 2, 0), ("R4", 2, 3)],
+        run_lifecycle(ctx, bfs=[("L1", 3, 0), ("P3", 3, 4), ("L3", 3, 0), ("H1", 3, 0), ("D1", 3, 4), ("D2", 2, 3)], emit=[("L2", 2, 0), ("P4", 2, 3), ("P0", 2, 3), ("H0", 2, 0), ("R4", 2, 3), ("D0", 2, 2)],
                       sim=[("L1", 6, 0, 4000, 26), ("P3", 5, 6, 1500, 22), ("P1", 5, 5, 800, 22), ("L3", 5, 0, 2000, 24), ("L4", 5, 0, 1500, 24), ("P5", 5, 5, 800, 22), ("S3", 5, 0, 1500, 24),
                            ("H1", 5, 0, 1500, 24), ("H2", 5, 5, 600, 22),
-                           ("R3", 5, 6, 1000, 22), ("R1", 5, 5, 600, 22), ("R5", 5, 5, 500, 22)])
+                           ("R3", 5, 6, 1000, 22), ("R1", 5, 5, 600, 22), ("R5", 5, 5, 500, 22),
+                           ("D1", 5, 5, 800, 22), ("D2", 5, 5, 800, 22)], directed=DIRECTED)
